@@ -91,6 +91,13 @@ def search(ctx, prop=None):
         todo.append((m, desc, [gens.make_state(rng, m) for _ in range(2)]))
         m, desc = advcorr.build_model(rng, n_grid=60, zmax=30, RADIAL_DYNAMICS=True, ESCAPE_AXIAL=True, ESCAPE_RADIAL=True)
         todo.append((m, desc, [advcorr.compensated_state(rng, m) for _ in range(2)]))
+    # sparse states: every density exactly at / just around the minimal density, so that the balance is not drowned by the rates of a
+    # populated neighbour (a state sitting exactly on MINIMAL_N_1D is live: what it loses, its neighbour gains)
+    from ebisim.physconst import MINIMAL_N_1D
+    for m, desc, ys in list(todo[:2]):
+        y0 = ys[0].copy(); nq_ = m.nq
+        for pat in ([1.0] * nq_, [1.0, 1.0, 3.0, 1.0, 0.5, 1.0, 2.0] * nq_):
+            y1 = y0.copy(); y1[:nq_] = MINIMAL_N_1D * np.asarray(pat[:nq_]); ys.append(y1)
     for m, desc, ys in todo:
         for y in ys:
             for v in advstmt.stmt_balance(m, y, desc):
